@@ -1,10 +1,11 @@
 import Driver.OpsQual
 import Driver.OpsAlign
+import Driver.OpsIndex
 /-! Line-protocol driver: one operation per input line, one result per output line.
     Unknown or malformed operations print `bad-op` (never a default value). -/
 open Driver
 
-def handlers : List (List String → Option String) := [opsQual, opsAlign]
+def handlers : List (List String → Option String) := [opsQual, opsAlign, opsIndex]
 
 def step (line : String) : String :=
   let toks := (line.trimAscii.toString.splitOn " ").filter (· ≠ "")
